@@ -17,7 +17,7 @@ from .. import common as C
 SUMMARY_FIELDS = ["id", "prop", "desc", "corner", "expect", "cls", "direct", "why",
                   "f1", "f2", "f3", "r1", "r2", "r3", "ckey", "chash", "csalt", "session",
                   "skey", "skeyid", "ssalt", "shash1", "encseen", "encopened", "encpkt", "fault", "errtext", "rejected",
-                  "postreq", "after_encrypted", "postplain", "hang_retried"]
+                  "postreq", "after_encrypted", "postplain", "hang_retried", "storecalls", "afterchatter", "plainchatter", "encnotification"]
 
 CLASS_OF_VERDICT = {"success": "ok", "failed": "err", "panicked": "panic", "stalled": "hang"}
 
@@ -41,6 +41,8 @@ TRUSTED = [
     "after every exchange the harness makes one ordinary request (ping) on the same client: after success the server must be able to read it and its "
     "rpc_result{pong} answer must come back; after an abandoned exchange no encrypted frame may appear and the verif export must show encrypted = false, "
     "no auth key, salt 0",
+    "the session store handed to the client counts every Store call; after every abandoned exchange the server sends five more unencrypted messages on the "
+    "open connection and the store, the file and the client state must stay untouched (a short settle with polling stands in for a 'client has read' signal)",
     "a 'hang' verdict (20 s watchdog) is only reported after the same case hung again when re-run on its own with a 120 s limit",
     "SaveSession is assumed to succeed (file system errors are outside the model)",
 ]
@@ -228,6 +230,17 @@ def run(ctx, prop, props_file, rule, distribution_note):
             samples.append({"case": r["desc"][:160], "implementation": r["cls"], "model": m.get("verdict"),
                             "req_DH_params_bytes": len(r["f2"]) // 2 if r["f2"] != "-" else 0,
                             "key_prefix": r["ckey"][:16], "salt": r["csalt"], "direct_oracle": r["direct"]})
+    after_abort = [r["afterchatter"] for r in rows if r.get("afterchatter", "-") not in ("-", "")]
+    after_ok = [r for r in rows if r.get("plainchatter", "-") not in ("-", "")]
+    chatter = {
+        "after_abandoned_exchange": "%d exchanges followed by unencrypted new_session_created, bad_server_salt, rpc_result, msg_container{new_session_created} "
+                                    "and 40 bytes of garbage (rotating order); %d stayed clean (no Store call, encrypted=false, no key, salt 0, no session file)"
+                                    % (len(after_abort), sum(1 for a in after_abort if a.startswith("stores=0 encrypted=false key=0 salt=0 file=-"))),
+        "after_successful_exchange": "%d exchanges followed by the same five unencrypted messages: %d unchanged (no Store, salt kept); then the legitimate "
+                                     "ENCRYPTED new_session_created: salt taken over and stored in %d"
+                                     % (len(after_ok), sum(1 for r in after_ok if r["plainchatter"] == "stores+0 salt-changed=false"),
+                                        sum(1 for r in after_ok if r.get("encnotification", "").startswith("stores+1 salt-taken=true"))),
+    }
     if harness_errors:
         raise C.BuildError("harness errors (no verdict): " + "; ".join(harness_errors[:5]))
 
@@ -236,6 +249,7 @@ def run(ctx, prop, props_file, rule, distribution_note):
         {"evaluations": evals, "distinct_nontrivial": len(nontrivial), "rule": rule, "samples": samples,
          "input_distribution": dict(stats, note=distribution_note), "disagreements": disagreements,
          "direct_oracle_failures": direct_fail, "coqchk": coqchk or "thorough tier only",
+         "post_exchange_chatter": chatter,
          "hang_verdicts_rerun_alone": stats.get("hang_verdicts_rerun_alone", 0), "hang_verdicts_confirmed": stats.get("hang_verdicts_confirmed", 0),
          "projection": "outcome class (returned nil / returned an error / panicked / never returned or process died); every plain message byte for byte; "
                        "auth key, key id, salt on both sides; contents of the session store (key, hash, salt, address matches); the first encrypted packet "
